@@ -7,7 +7,9 @@ import Panacea.Model.Outcome
 view of the key file: the four hex fields either decode or not, `dklen` is the file's integer, the IV has
 some decoded length, and `macOK` says whether the MAC computed from the derived key matches.  Partial Go
 operations are explicit: slicing `derivedKey[16:32]` needs `32 ≤ len`, `pbkdf2.Key` panics on a negative
-length, `cipher.NewCTR` panics unless the IV is 16 bytes.
+length and allocates `dklen` bytes at once (`make([]byte, 0, numBlocks*hashLen)`: a runtime panic "makeslice: cap
+out of range" beyond the allocator's limit of 2^48 bytes, an unrecoverable out-of-memory abort somewhat below it),
+`cipher.NewCTR` panics unless the IV is 16 bytes.
 
 **Lock protocol**: a writer-preferring RWMutex (Go's `sync.RWMutex`: once a writer waits, new readers
 block) and threads that run sequences of `rlock / runlock / lock / unlock` operations.
@@ -34,8 +36,33 @@ def cipherAlgorithm : Bytes := [0x61, 0x65, 0x73, 0x2d, 0x31, 0x32, 0x38, 0x2d, 
 def kdfName : Bytes := [0x70, 0x62, 0x6b, 0x64, 0x66, 0x32]                                          -- "pbkdf2"
 def prfName : Bytes := [0x68, 0x6d, 0x61, 0x63, 0x2d, 0x73, 0x68, 0x61, 0x32, 0x35, 0x36]            -- "hmac-sha256"
 
-/-- `decryptKey` after the repair of F4 (dklen and IV length are checked before use). -/
+/-- the largest derived-key length accepted from a key file (`maxPBKDF2DKLen`) -/
+def maxDKLen : Int := 1024
+
+/-- the allocator's limit: `pbkdf2.Key` with a longer key aborts (panic or out-of-memory) -/
+def allocLimit : Int := 2 ^ 40
+
+/-- `decryptKey` after the repairs of F4 and F22 (dklen — both ways — and IV length are checked before use). -/
 def decryptKey (k : KeyFile) : Outcome Unit :=
+  if k.version ≠ 3 then .err "version" else
+  if k.cipher ≠ cipherAlgorithm then .err "cipher" else
+  if k.kdf ≠ kdfName then .err "kdf" else
+  if k.prf ≠ prfName then .err "prf" else
+  if !k.macHexOK then .err "mac-hex" else
+  if !k.ivHexOK then .err "iv-hex" else
+  if !k.ctHexOK then .err "ct-hex" else
+  if !k.saltHexOK then .err "salt-hex" else
+  if k.dklen < 32 ∨ k.dklen > maxDKLen then .err "dklen" else
+  if k.ivLen ≠ 16 then .err "iv-len" else
+  -- pbkdf2.Key(passwd, salt, c, dklen): fine for 0 ≤ dklen ≤ maxDKLen < allocLimit and any c (c ≤ 1 means a single round)
+  if k.dklen ≥ allocLimit then .panic "pbkdf2.Key: makeslice / out of memory" else
+  -- derivedKey[16:32]: fine, the derived key has dklen ≥ 32 bytes
+  if !k.macOK then .err "mac" else
+  -- aes.NewCipher(derivedKey[:16]) with a 16-byte key, cipher.NewCTR with a 16-byte IV
+  .ok ()
+
+/-- after F4, before F22: no upper bound on `dklen` -/
+def decryptKeyF4 (k : KeyFile) : Outcome Unit :=
   if k.version ≠ 3 then .err "version" else
   if k.cipher ≠ cipherAlgorithm then .err "cipher" else
   if k.kdf ≠ kdfName then .err "kdf" else
@@ -46,10 +73,8 @@ def decryptKey (k : KeyFile) : Outcome Unit :=
   if !k.saltHexOK then .err "salt-hex" else
   if k.dklen < 32 then .err "dklen" else
   if k.ivLen ≠ 16 then .err "iv-len" else
-  -- pbkdf2.Key(passwd, salt, c, dklen): fine for dklen ≥ 0 and any c (c ≤ 1 means a single round)
-  -- derivedKey[16:32]: fine, the derived key has dklen ≥ 32 bytes
+  if k.dklen ≥ allocLimit then .panic "pbkdf2.Key: makeslice / out of memory" else
   if !k.macOK then .err "mac" else
-  -- aes.NewCipher(derivedKey[:16]) with a 16-byte key, cipher.NewCTR with a 16-byte IV
   .ok ()
 
 /-- the unrepaired function, for the counterexamples -/
